@@ -1,26 +1,28 @@
 #!/usr/bin/env python3
 """Re-runs ALL quick checks against every kept property-preserving change (benign/<id>/patch.diff)
 with the current machinery and rewrites the result fields of its meta.json.
-usage: benign_rerun.py <shard> <shards> [--dest DIR]"""
+usage: benign_rerun.py <shard> <shards> [--dest DIR] [--checks C05,C10]   (--checks: re-run only those and merge into the stored result)"""
 import glob, json, os, subprocess, sys
 V = os.path.dirname(os.path.abspath(__file__))
 shard, shards = int(sys.argv[1]), int(sys.argv[2])
 dest = sys.argv[sys.argv.index("--dest") + 1] if "--dest" in sys.argv else os.path.join(V, "benign")
+only = sys.argv[sys.argv.index("--checks") + 1] if "--checks" in sys.argv else "all"
 head = subprocess.run(["git", "-C", V, "rev-parse", "--short", "HEAD"], capture_output=True, text=True).stdout.strip()
 for i, f in enumerate(sorted(glob.glob(os.path.join(V, "benign", "*", "meta.json")))):
     if i % shards != shard:
         continue
     m = json.load(open(f))
-    p = subprocess.run([sys.executable, os.path.join(V, "seedtest.py"), os.path.dirname(f), "--checks", "all", "--no-confirm"], capture_output=True, text=True)
+    p = subprocess.run([sys.executable, os.path.join(V, "seedtest.py"), os.path.dirname(f), "--checks", only, "--no-confirm"], capture_output=True, text=True)
     try:
         res = json.loads(p.stdout)
     except Exception:
         print(m["id"], "ERROR", (p.stdout + p.stderr)[-300:], flush=True)
         continue
     checks = res.get("checks") or {}
-    m["alarms"] = {k: v["fingerprints"] for k, v in checks.items() if v["exit"] == 1}
-    m["harness_errors"] = {k: v.get("log") for k, v in checks.items() if v["exit"] == 2}
-    m["checks_passed"] = sorted(k for k, v in checks.items() if v["exit"] == 0)
+    keep = (lambda d: {k: v for k, v in (d or {}).items() if k not in checks}) if only != "all" else (lambda d: {})
+    m["alarms"] = dict(keep(m.get("alarms")), **{k: v["fingerprints"] for k, v in checks.items() if v["exit"] == 1})
+    m["harness_errors"] = dict(keep(m.get("harness_errors")), **{k: v.get("log") for k, v in checks.items() if v["exit"] == 2})
+    m["checks_passed"] = sorted(set(k for k in (m.get("checks_passed") or []) if only != "all" and k not in checks) | set(k for k, v in checks.items() if v["exit"] == 0))
     m["checks_rerun_at_verif_commit"] = head
     m["error"] = res.get("apply_failed") or res.get("overlay_build_failed")
     out = os.path.join(dest, m["id"], "meta.json")
